@@ -210,10 +210,11 @@ theorem strict_utf16 (u : Bytes) (cps : List Nat) (h : Spec.utf16leDecode? u = s
     refine ⟨us, hus, strict_scalars us cps ?_⟩
     rw [hm]; exact h
 
-theorem unitsLE_length : ∀ (u : Bytes) (us : List UInt16), unitsLE u = .ok us → u.length = 2 * us.length
+theorem unitsLE_length : ∀ (u : Bytes) (us : List UInt16), unitsLE u = .ok us → u.length / 2 = us.length
   | [], us, h => by
     simp only [unitsLE, Outcome.ok.injEq] at h; subst h; rfl
-  | [_], _, h => by simp [unitsLE] at h
+  | [_], us, h => by
+    simp only [unitsLE, Outcome.ok.injEq] at h; subst h; simp
   | a :: b :: rest, us, h => by
     simp only [unitsLE] at h
     cases hr : unitsLE rest with
@@ -225,9 +226,34 @@ theorem unitsLE_length : ∀ (u : Bytes) (us : List UInt16), unitsLE u = .ok us 
     | err => rw [hr] at h; cases h
     | panic => rw [hr] at h; cases h
 
+/-- `DecodeUTF16LE` reads `len(b)/2` code units from any byte string: it never panics -/
+theorem unitsLE_ok : ∀ u : Bytes, ∃ us, unitsLE u = .ok us
+  | [] => ⟨[], rfl⟩
+  | [_] => ⟨[], rfl⟩
+  | a :: b :: rest => by
+    obtain ⟨us, hus⟩ := unitsLE_ok rest
+    exact ⟨le16 a b :: us, by simp [unitsLE, hus]⟩
+
+theorem spec_unitsLE_length : ∀ (u : Bytes) (ns : List Nat), Spec.unitsLE? u = some ns → u.length = 2 * ns.length
+  | [], ns, h => by
+    simp only [Spec.unitsLE?, Option.some.injEq] at h; subst h; rfl
+  | [_], _, h => by simp [Spec.unitsLE?] at h
+  | a :: b :: rest, ns, h => by
+    rw [Spec.unitsLE?] at h
+    cases hr : Spec.unitsLE? rest with
+    | none => rw [hr] at h; simp at h
+    | some ns' =>
+      rw [hr] at h
+      simp only [Option.map_eq_map, Option.map_some, Option.some.injEq] at h
+      subst h
+      have := spec_unitsLE_length rest ns' hr
+      simp only [List.length_cons]; omega
+
 theorem strict_utf16_even (u : Bytes) (cps : List Nat) (h : Spec.utf16leDecode? u = some cps) :
     u.length % 2 = 0 := by
-  obtain ⟨us, hus, _⟩ := strict_utf16 u cps h
-  rw [unitsLE_length u us hus]; omega
+  unfold Spec.utf16leDecode? at h
+  cases hu : Spec.unitsLE? u with
+  | none => rw [hu] at h; cases h
+  | some ns => rw [spec_unitsLE_length u ns hu]; omega
 
 end Manticore.C12.GPP
